@@ -15,6 +15,25 @@ def asciiChars (b : List UInt8) : List Char := b.map fun x => Char.ofNat x.toNat
 def showKey (o : Option Bytes) : String := match o with | none => "err" | some k => "ok " ++ Hex.encode k
 def showDec (inp : Bytes) (o : Option (Bytes × Bytes)) : String :=
   match o with | none => "err" | some (k, rest) => s!"ok {Hex.encode (Keys.consensusEncode k)} {inp.length - rest.length}"
+/-- spec side of the text form: an even-length string of ASCII hex digits (either case), read independently of the model -/
+def specHexVal (c : UInt8) : Option Nat :=
+  if 48 ≤ c.toNat ∧ c.toNat ≤ 57 then some (c.toNat - 48)
+  else if 97 ≤ c.toNat ∧ c.toNat ≤ 102 then some (c.toNat - 87)
+  else if 65 ≤ c.toNat ∧ c.toNat ≤ 70 then some (c.toNat - 55) else none
+def specHex : List UInt8 → Option (List UInt8)
+  | [] => some []
+  | [_] => none
+  | a :: b :: t => match specHexVal a, specHexVal b, specHex t with
+    | some x, some y, some r => some (UInt8.ofNat (16 * x + y) :: r)
+    | _, _, _ => none
+def specText (accept : List UInt8 → Bool) (txt : List UInt8) : String :=
+  match specHex txt with
+  | some b => if accept b then "ok " ++ Hex.encode b else "err"
+  | none => "err"
+def specShow (accept : List UInt8 → Bool) (b : List UInt8) : String :=
+  if accept b then Hex.encode ((Hex.encode b).toList.map fun c => UInt8.ofNat c.toNat) else "err"
+def specCons (accept : List UInt8 → Bool) (b : List UInt8) : String :=
+  if 32 ≤ b.length ∧ accept (b.take 32) then s!"ok {Hex.encode (b.take 32)} 32" else "err"
 end C13
 open C13
 /-- C13 operations (byte strings in hex).
@@ -25,7 +44,7 @@ delegate to dalek), spec side = reference group law.
 `c13_pk_str <hex of the ASCII text>` / `c13_sk_str` → `ok <bytes>`|`err` (FromStr); `c13_pk_show <b>` / `c13_sk_show <b>` → hex text
 of the accepted key (Display) as hex-of-ASCII | `err`; `c13_pk_cons <b>` / `c13_sk_cons <b>` → `ok <re-encoded> <consumed>`|`err`
 (consensus decode of a prefix, then encode); `c13_dalek_decompress <b>` → recompressed bytes of dalek's permissive
-`CompressedEdwardsY::decompress` | `err` (the intermediate stage of `PublicKey::from_slice`; model `Keys.decompressDalek`). Model side only (spec `-`). -/
+`CompressedEdwardsY::decompress` | `err` (the intermediate stage of `PublicKey::from_slice`; model `Keys.decompressDalek`). The text, Display and consensus operations have an independent spec side (hex of either case / first 32 bytes, accepted iff RFC 8032 resp. `< l`); `c13_dalek_decompress` is model side only. -/
 def stepC13 : Step
   | ["c13_sk", h] => let b := Hex.decode h; some (okErr (Keys.secretAccept b), okErr (specScalar b).isSome)
   | ["c13_pk", h] => let b := Hex.decode h; some (okErr (Keys.publicAccept b), okErr (specPt b).isSome)
@@ -45,13 +64,15 @@ def stepC13 : Step
     some ("-", showSc (match specScalar (Hex.decode a), specScalar (Hex.decode b) with | some x, some y => some ((x + y) % Ed.l) | _, _ => none))
   | ["c13_smulmul", a, b] =>
     some ("-", showSc (match specScalar (Hex.decode a), specScalar (Hex.decode b) with | some x, some y => some ((x * y) % Ed.l) | _, _ => none))
-  | ["c13_pk_str", h] => some (showKey (Keys.publicFromStr (asciiChars (Hex.decode h))), "-")
-  | ["c13_sk_str", h] => some (showKey (Keys.secretFromStr (asciiChars (Hex.decode h))), "-")
+  | ["c13_pk_str", h] => some (showKey (Keys.publicFromStr (asciiChars (Hex.decode h))), specText (fun b => (specPt b).isSome) (Hex.decode h))
+  | ["c13_sk_str", h] => some (showKey (Keys.secretFromStr (asciiChars (Hex.decode h))), specText (fun b => (specScalar b).isSome) (Hex.decode h))
   | ["c13_pk_show", h] =>
-    some ((match Keys.publicFromSlice (Hex.decode h) with | none => "err" | some k => Hex.encode ((Keys.keyToString k).map fun c => UInt8.ofNat c.toNat)), "-")
+    some ((match Keys.publicFromSlice (Hex.decode h) with | none => "err" | some k => Hex.encode ((Keys.keyToString k).map fun c => UInt8.ofNat c.toNat)),
+      specShow (fun b => (specPt b).isSome) (Hex.decode h))
   | ["c13_sk_show", h] =>
-    some ((match Keys.secretFromSlice (Hex.decode h) with | none => "err" | some k => Hex.encode ((Keys.keyToString k).map fun c => UInt8.ofNat c.toNat)), "-")
-  | ["c13_pk_cons", h] => let b := Hex.decode h; some (showDec b (Keys.publicConsensusDecode b), "-")
-  | ["c13_sk_cons", h] => let b := Hex.decode h; some (showDec b (Keys.secretConsensusDecode b), "-")
+    some ((match Keys.secretFromSlice (Hex.decode h) with | none => "err" | some k => Hex.encode ((Keys.keyToString k).map fun c => UInt8.ofNat c.toNat)),
+      specShow (fun b => (specScalar b).isSome) (Hex.decode h))
+  | ["c13_pk_cons", h] => let b := Hex.decode h; some (showDec b (Keys.publicConsensusDecode b), specCons (fun b => (specPt b).isSome) b)
+  | ["c13_sk_cons", h] => let b := Hex.decode h; some (showDec b (Keys.secretConsensusDecode b), specCons (fun b => (specScalar b).isSome) b)
   | _ => none
 end Drv
